@@ -144,6 +144,19 @@ def k3_values(run, rng, n):
             ds = xr.DataArray(arr, dims=("y", "x"), coords={"lab": ("x", labels)})
             out2 = fx.rechunk_for_blockwise(ds, "x", ds.lab)
             ok = ok and out2.chunks[1] == out.chunks[1] and np.array_equal(out2.compute().values, data) and ds.chunks[1] == tuple(chunks)
+            # cohorts flavours: array and xarray (DataArray and Dataset) give the same chunks and keep data / other axes / attrs
+            period = rng.randint(1, 4)
+            plabels = np.arange(m) % period
+            force = [0]
+            csize = rng.choice([2, 3, 4])
+            ign = rng.random() < 0.5
+            a3 = flox.rechunk_for_cohorts(arr, axis=-1, labels=plabels, force_new_chunk_at=force, chunksize=csize, ignore_old_chunks=ign)
+            da3 = xr.DataArray(arr, dims=("y", "x"), coords={"lab": ("x", plabels)}, attrs={"k": 1})
+            x3 = fx.rechunk_for_cohorts(da3, "x", da3.lab, force_new_chunk_at=force, chunksize=csize, ignore_old_chunks=ign)
+            d3 = fx.rechunk_for_cohorts(da3.to_dataset(name="v"), "x", da3.lab, force_new_chunk_at=force, chunksize=csize, ignore_old_chunks=ign)
+            ok = (ok and a3.shape == arr.shape and a3.dtype == arr.dtype and a3.chunks[0] == arr.chunks[0] and np.array_equal(a3.compute(), data)
+                  and x3.chunks[1] == a3.chunks[1] and x3.chunks[0] == a3.chunks[0] and np.array_equal(x3.compute().values, data) and x3.attrs == {"k": 1}
+                  and d3["v"].chunks[1] == a3.chunks[1] and np.array_equal(d3["v"].compute().values, data))
         run.count(f"k3|{runs}|{chunks}", True)
         if not ok:
             run.violation({"property": "C17", "kind": "rechunk helper changed data / metadata or blockwise on its result is not exact",
